@@ -9,7 +9,7 @@ mf = len(sys.argv) > 2 and sys.argv[2] == "mf"
 text = u.generate(mf)
 d = "/tmp/vdev"; os.makedirs(d, exist_ok=True)
 p = os.path.join(d, u.name + ".rs"); write(p, text)
-rc, js, diags, wall, cmd = V.run_verus_file(p)
+rc, js, diags, wall, cmd = V.run_verus_file(p, 900, u.rlimit, 8)
 for x in diags:
     if x.get("level") in ("error", "warning", "note") and "rendered" in x:
         r = x["rendered"]
